@@ -241,13 +241,14 @@ def gen_sdp_tables():
     m.raw("Definition proto_rtp : string := %s.\nDefinition proto_srtp : string := %s." %
           (coq_str(mo.group(1)), coq_str(mo.group(2))), "build_description per-mode media profile", PC)
     # mid clearing / BUNDLE echo shape
-    if not re.search(r"let will_bundle = self\.config\.sdp_compatibility != crate::config::SdpCompatibilityMode::LegacySip "
-                     r"&& match sdp_type \{ SdpType::Offer => ordered_transceivers\.len\(\) > 1, SdpType::Answer => remote_offered_bundle, _ => false, \};", bd):
+    # (since ca1331b) an answer echoes the offered group in every compatibility mode; only offers are gated by LegacySip
+    if not re.search(r"let will_bundle = match sdp_type \{ SdpType::Offer => \{ self\.config\.sdp_compatibility != crate::config::SdpCompatibilityMode::LegacySip "
+                     r"&& ordered_transceivers\.len\(\) > 1 \} SdpType::Answer => remote_offered_bundle, _ => false, \};", bd):
         raise Untranslatable("build_description: will_bundle changed shape")
     if not re.search(r"if will_bundle \{ let mids: Vec<String> = desc\.media_sections\.iter\(\)\.map\(\|m\| m\.mid\.clone\(\)\)\.collect\(\); "
                      r"let value = format!\(\"BUNDLE \{\}\", mids\.join\(\" \"\)\);", bd):
         raise Untranslatable("build_description: BUNDLE group construction changed shape")
-    if not re.search(r"if self\.config\.sdp_compatibility == crate::config::SdpCompatibilityMode::LegacySip \{ "
+    if not re.search(r"if self\.config\.sdp_compatibility == crate::config::SdpCompatibilityMode::LegacySip && !will_bundle \{ "
                      r"for section in &mut desc\.media_sections \{ section\.mid = String::new\(\); \} \} "
                      r"else if !will_bundle \{ if desc\.media_sections\.len\(\) > 1 \{ "
                      r"for section in &mut desc\.media_sections \{ section\.mid = String::new\(\); \} \} \}", bd):
